@@ -149,6 +149,7 @@ var c05pool = map[string][]string{
 	"generic-arrows":     {"страна", "a → b", "→", "x→y", "日本　語", "ab", "", "→→ж", "'→'", "ж"},
 	"generic-quotes":     {"a «b c«", "«open", "“d“ x", "", "'e'", "««"},
 	"generic-unknownsym": {"a ? b", "?!", "?", "!?", "", "x"},
+	"generic-interned":   {"a\nb", "\n", " \n ", "x", "", "\n\n"},
 	"generic-2quotes":    {"a `b``c`", "`open", "'d'", "", "``", "x"},
 	"expression-custom":  {"a->b", "->", "-", "=>", "=", "--", "-=", "a - 1", "", "-1"},
 	"csv-wide":           {"日本；語", "страна", "a；b", "«q；»；x", "；", "", "a,b", "ж；ж\r\nж"},
